@@ -240,7 +240,7 @@ func cmdCheck(args []string) int {
 				os.WriteFile(path, b, 0644)
 			}
 			ok, why := true, ""
-			if nat != nil && v.Witness != nil && v.Kind != "race" {
+			if nat != nil && v.Witness != nil {
 				ok, why = nat.confirms(v)
 			}
 			if !ok {
@@ -336,6 +336,7 @@ func reachLabels(hfiles []*harnessFile, fn string) []string {
 // native co-execution (DESIGN 2.12 / 2.13)
 
 type nativeResult struct {
+	raceSeen   map[string]bool
 	err        string
 	validated  int
 	skipped    int
@@ -382,7 +383,7 @@ func runNative(overlay map[string][]byte, pkgs map[string]string, reports []*Har
 			pathOf[id] = p
 		}
 		for i, v := range rep.Violations {
-			if v.Witness == nil {
+			if v.Witness == nil || v.Kind == "race" {
 				continue
 			}
 			id := fmt.Sprintf("%s/v%d", rep.Name, i)
@@ -472,6 +473,53 @@ func runNative(overlay map[string][]byte, pkgs map[string]string, reports []*Har
 			nr.results[r.ID] = r
 		}
 	}
+	// race violations: confirm with the runtime race detector (one -race binary per package)
+	nr.raceSeen = map[string]bool{}
+	raceJobs := map[string]witnessJob{}
+	for _, rep := range reports {
+		for _, v := range rep.Violations {
+			if v.Kind == "race" && v.Witness != nil {
+				if _, ok := raceJobs[rep.Name]; !ok {
+					raceJobs[rep.Name] = witnessJob{ID: rep.Name + "/race", W: v.Witness}
+				}
+			}
+		}
+	}
+	if len(raceJobs) > 0 {
+		for d := range harnessByPkg {
+			bin := filepath.Join(tmp, "r_"+sanitize(d)+".test")
+			cmd := exec.Command("go", "test", "-race", "-c", "-vet=off", "-overlay", ovf, "-o", bin, "./"+d)
+			cmd.Dir = repoDir
+			cmd.Env = env
+			if out, err := cmd.CombinedOutput(); err != nil {
+				nr.err = fmt.Sprintf("go test -race -c ./%s: %v\n%s", d, err, tail(string(out), 1500))
+				return nr
+			}
+			for name, job := range raceJobs {
+				found := false
+				for _, h := range harnessByPkg[d] {
+					if h == name {
+						found = true
+					}
+				}
+				if !found {
+					continue
+				}
+				jb, _ := json.Marshal([]witnessJob{job})
+				rf := filepath.Join(tmp, "racejob.json")
+				os.WriteFile(rf, jb, 0644)
+				for try := 0; try < 3 && !nr.raceSeen[name]; try++ {
+					run := exec.Command(bin, "-test.run", "^TestVerifReplay$", "-test.count=1", "-test.timeout=5m")
+					run.Dir = filepath.Join(repoDir, d)
+					run.Env = append(env, "VERIF_REPLAY="+rf, "VERIF_OUT="+filepath.Join(tmp, "raceout.json"), "GORACE=halt_on_error=0")
+					o, _ := run.CombinedOutput()
+					if strings.Contains(string(o), "WARNING: DATA RACE") {
+						nr.raceSeen[name] = true
+					}
+				}
+			}
+		}
+	}
 	// compare path witnesses
 	for id, p := range pathOf {
 		r := nr.results[id]
@@ -541,6 +589,12 @@ func compareTrace(expect []TraceEvent, r *nativeRun, outcome string) string {
 
 // confirms: does the native run of a violation witness show the violation?
 func (nr *nativeResult) confirms(v *Violation) (bool, string) {
+	if v.Kind == "race" {
+		if nr.raceSeen[v.Harness] {
+			return true, ""
+		}
+		return false, "go test -race reported no data race for this harness"
+	}
 	id := v.Witness.Notes["vid"]
 	r := nr.results[id]
 	if r == nil {
@@ -564,6 +618,11 @@ func (nr *nativeResult) confirms(v *Violation) (bool, string) {
 			return true, ""
 		}
 		return false, "native run terminated"
+	case "race":
+		if nr.raceSeen[v.Harness] {
+			return true, ""
+		}
+		return false, "go test -race reported no data race for this harness"
 	}
 	return true, ""
 }
